@@ -1052,6 +1052,102 @@ def _return_temps(tree, log):
         fix(f.body)
 
 
+# ------------------------------------------------------------------------------------------------ 2j. single-use temporaries
+def _forward_temps(tree, log, modname=""):
+    """N = E ; <statement that reads N once>   ->   <statement with E in place of N>   when N is bound once and read once in the
+    whole function, the read is in the statement that follows (in the part of it that is evaluated exactly once, not under a
+    lambda / comprehension / loop body), and no call is evaluated in that statement before the read (so E is still evaluated at
+    the same point of the order of effects).  The hoisted-argument form and the nested form are one program."""
+    from . import pynames
+    ref = pynames.table()
+    for q, f in pynames.functions(tree, modname):
+        if any(isinstance(x, (ast.Global, ast.Nonlocal, ast.NamedExpr)) for x in ast.walk(f)):
+            continue
+        params = {a.arg for a in f.args.posonlyargs + f.args.args + f.args.kwonlyargs} | \
+            ({f.args.vararg.arg} if f.args.vararg else set()) | ({f.args.kwarg.arg} if f.args.kwarg else set())
+        # the locals the function has on the reference tree keep their statements (the rules are written against them); what is
+        # forwarded are temporaries a later edit introduced
+        params = params | set(ref.get(q, ()))
+        for _ in range(40):
+            stores, loads = {}, {}
+            for x in ast.walk(f):
+                if isinstance(x, ast.Name):
+                    d_ = stores if isinstance(x.ctx, (ast.Store, ast.Del)) else loads
+                    d_[x.id] = d_.get(x.id, 0) + 1
+            if not _forward_once(f.body, stores, loads, params, log):
+                break
+
+
+def _header_exprs(st):
+    """the expressions of statement st that are evaluated exactly once when st is reached"""
+    if isinstance(st, ast.Assign):
+        return [st.value]                 # the value is evaluated before the targets
+    if isinstance(st, ast.AnnAssign):
+        return [st.value] if st.value is not None else []
+    if isinstance(st, (ast.AugAssign, ast.Expr, ast.Return)):
+        return [st]
+    if isinstance(st, ast.Raise):
+        return [x for x in (st.exc, st.cause) if x is not None]
+    if isinstance(st, ast.If):
+        return [st.test]
+    if isinstance(st, ast.For):
+        return [st.iter]
+    return []
+
+
+def _forward_once(blk, stores, loads, params, log):
+    for i in range(len(blk) - 1):
+        a, b = blk[i], blk[i + 1]
+        if isinstance(a, ast.Assign) and len(a.targets) == 1 and isinstance(a.targets[0], ast.Name):
+            N = a.targets[0].id
+            if N in params or stores.get(N) != 1 or loads.get(N) != 1 or N.startswith("_seq__h"):
+                continue
+            uses = []
+            for h in _header_exprs(b):
+                stack = [(h, False)]
+                while stack:
+                    x, shielded = stack.pop()
+                    if isinstance(x, ast.Name) and x.id == N and isinstance(x.ctx, ast.Load):
+                        uses.append((x, shielded))
+                    sh = shielded or isinstance(x, (ast.Lambda, ast.ListComp, ast.SetComp, ast.DictComp, ast.GeneratorExp))
+                    for c in ast.iter_child_nodes(x):
+                        stack.append((c, sh))
+            if len(uses) != 1 or uses[0][1]:
+                continue
+            use = uses[0][0]
+            pos = (use.lineno, use.col_offset)
+            anc = set()
+            blocked = False
+            for h in _header_exprs(b):
+                for x in ast.walk(h):
+                    if isinstance(x, ast.Call):
+                        if any(y is use for y in ast.walk(x)) and not any(y is use for y in ast.walk(x.func)):
+                            # an enclosing call: its function expression is evaluated first and must be call-free
+                            if any(isinstance(y, ast.Call) for y in ast.walk(x.func)):
+                                blocked = True
+                            continue
+                        if (getattr(x, "lineno", 0), getattr(x, "col_offset", 0)) < pos:
+                            blocked = True
+            if blocked:
+                continue
+            val = a.value
+
+            class R(ast.NodeTransformer):
+                def visit_Name(self, n):
+                    return ast.copy_location(copy.deepcopy(val), n) if n is use else n
+            blk[i + 1] = R().visit(b)
+            del blk[i]
+            ast.fix_missing_locations(blk[i])
+            log.append(("-", "single-use temporary `%s` forwarded" % N))
+            return True
+    for st in blk:
+        for fld in ("body", "orelse", "finalbody"):
+            sub = getattr(st, fld, None)
+            if isinstance(sub, list) and sub and isinstance(sub[0], ast.stmt) and _forward_once(sub, stores, loads, params, log):
+                return True
+    return False
+
+
 def normalise(tree, modname, inventory):
     log = []
     inl = _Inliner(tree, modname, inventory, log)
@@ -1061,6 +1157,7 @@ def normalise(tree, modname, inventory):
     _ConstRight(log).visit(tree)
     _PositiveIf(log).visit(tree)
     _return_temps(tree, log)
+    _forward_temps(tree, log, modname)
     _Enum(log).visit(tree)
     _Zip(log).visit(tree)
     _Aug(log).visit(tree)
